@@ -66,6 +66,16 @@ def run_history(doc: str, ops: list[dict], *, predict: bool = True) -> list[Step
             src = parse(emitted)
             fresh = True
             continue
+        if op["op"] == "scope_del":
+            # harness step, not judged itself: a binding of the outermost let layer is deleted through the scope
+            # mapping (`del source.expr.scope[name]`); what the object prints afterwards is the new baseline
+            try:
+                del src.expr.scope[op["name"]]
+                emitted = src.rebuild()
+                fresh = False
+            except Exception:  # noqa: BLE001 - not applicable to this document state
+                pass
+            continue
         st = Step()
         st.i = i
         st.op = op
@@ -390,6 +400,44 @@ def _line_flags(dec, path: str):
     return flags
 
 
+def _nonempty_sets_on_path(dec, path: str, indexes) -> bool:
+    """Do the sets number *indexes* along *path* (0 = target set / let layer) have at least one member each?"""
+    from .model import PathError, PathUnspecified, parse_npath
+
+    try:
+        depth, segs = parse_npath(path)
+    except (PathError, PathUnspecified):
+        return False
+    node = dec.shape.target
+    lets = dec.shape.layers()
+    nodes = [node]
+    if depth and depth <= len(lets):
+        node = lets[depth - 1]
+    for seg in segs[:-1]:
+        nxt = None
+        for c in node.named_children:
+            if c.type != "binding_set":
+                continue
+            for b in c.named_children:
+                if b.type != "binding":
+                    continue
+                ap = b.child_by_field_name("attrpath")
+                ex = b.child_by_field_name("expression")
+                names = [reader.decode_attr(x) for x in ap.named_children if x.type != "comment"]
+                if names == [seg] and ex.type in reader.SET_TYPES:
+                    nxt = ex
+        if nxt is None:
+            break
+        node = nxt
+        nodes.append(node)
+    for k in indexes:
+        if k >= len(nodes):
+            return False
+        if not any(c.type == "binding_set" and c.named_child_count for c in nodes[k].named_children):
+            return False
+    return True
+
+
 def _roundtrip_neutral(text: str) -> bool:
     """Does parse/rebuild alone keep tokens and comment positions of *text*?"""
     import bisect
@@ -445,6 +493,14 @@ def oracle_c04(steps: list[Step], counters: dict | None = None) -> list[Violatio
             # other layout; braces and separators then change by necessity: token and comment clauses only
             bump("skip:layout_switch")
             canonical = False
+            fb, fa = _line_flags(st.dec_before, st.op["path"]), _line_flags(st.dec_out, st.op["path"])
+            value = st.op.get("value") or ""
+            expanded = [k for k in range(min(len(fb), len(fa))) if not fb[k] and fa[k]]
+            if st.op["op"] == "set" and expanded and "\n" not in value and "#" not in value and _nonempty_sets_on_path(st.dec_before, st.op["path"], expanded):
+                # nothing multi-line was written, yet a one-line set that had members was expanded: its other
+                # members were re-wrapped without need
+                out.append(Violation("C04.layout_flip", "set %s %r expanded a one-line set although the value fits on a line: %r -> %r" % (st.op["path"], value[:40], st.before[-120:], (st.out or "")[-160:]), st.i, dict(f)))
+                continue
         if canonical and f["depth"] and _paren_opens_inline(st.dec_before) != _paren_opens_inline(st.dec_out):
             # a let created / pruned directly inside a parenthesis moves the first token off (or onto) the line of
             # `(` (non-RFC `f ( let …`, see section 7 item 18): the content is re-indented as a whole;
